@@ -424,6 +424,18 @@ func (S06) RunTape(t *sim.Tape, st *sim.Stats, keepLog bool) *sim.Outcome {
 				} else if !hashesTo(lnk, b) {
 					o.Fail("store-link-hash", sig, "Store (context cancelled after write #%d) returned %v, but the bytes committed under it do not hash to it", pos, lnk)
 				} else if got, derr := decodeBlock(&lsys, lnk, b); derr != nil || !model.Equal(got.Canon(model.SortLexical), V3.Canon(model.SortLexical)) {
+					// Two different blocks under one link: with a digest cut to one or two bytes the
+					// node's complete encoding may collide with a block stored earlier, which storage
+					// keeps. If the returned link IS the link of the complete encoding, that is what
+					// happened (the property leaves colliding digests open); a link of anything else
+					// (a prefix of the encoding, say) is the violation.
+					if enc, eerr := lsys.EncoderChooser(lp.LinkPrototype); eerr == nil {
+						var full bytes.Buffer
+						if enc(n3, &full) == nil && hashesTo(lnk, full.Bytes()) {
+							st.Inc("probe.hash_collision_short_digest")
+							break
+						}
+					}
 					o.Fail("store-committed-partial-block", sig, "Store (context cancelled after write #%d of %d) returned a nil error and link %v, but the block committed under it (%d bytes) is not the node's encoding: it decodes to %s (err %v), the node is %s", pos, wr.Calls, lnk, len(b), got, derr, V3.Canon(codec.SortMode))
 				}
 			case kind == 10 && ctr.fired:
